@@ -56,6 +56,9 @@ def judge_stub(res, text, tmod, m, records, k, cfgname, flag, wit):
         return keys
     collided = se.collided_closure()
     stats = {}
+    text_annotated = {f"{f.qual}({p_.name})" for f in m.funcs for p_ in f.params if p_.ann and p_.ann.startswith(("'", '"'))}
+    text_annotated |= {f"{f.qual}(return)" for f in m.funcs if f.ret_ann and f.ret_ann.startswith(("'", '"'))}
+    text_annotated |= set(wit.get("spec", {}).get("literal", {}).get("text_annotated", ()))
     for rec in records:
         info = se.funcs.get(rec["qual"])
         if info is None:
@@ -105,6 +108,10 @@ def judge_stub(res, text, tmod, m, records, k, cfgname, flag, wit):
         if kind == "typeddict-class-name-collision":
             res.count("stubs_with_typeddict_class_name_collision")  # matters for C01 only where a value is then rejected
         elif kind != "function-duplicated":
+            if kind == "name-not-provided-by-stub" and loc in text_annotated:
+                # the source annotation of this position is TEXT (quoted / PEP 563): it is copied into the stub as written, and the stub
+                # imports nothing for the names it uses (listed finding)
+                kind = "text-annotation-replicated-without-its-imports"
             bad(kind, f"{loc}: {detail}")
     return keys
 
@@ -314,6 +321,14 @@ PINNED.append(
 
 def _call(q, args, flavor="plain"):
     return {"qual": q, "access": q, "args": args, "kwargs": {}, "flavor": flavor, "kind": "module"}
+
+
+# pinned witness of the listed finding text-annotation-replicated-without-its-imports: a quoted source annotation naming typing constructs
+PINNED.append(
+    {"name": "vfm01_text_annotation", "seed": "textann", "stratum": "main", "ks": [0], "rewriters": ["NoOpRewriter"], "flags": ["default"],
+     "literal": {"source": "\ndef pair(p: 'Tuple[Optional[str], int]', q=1):\n    return q\n", "funcs": [["pair", "plain"]],
+                 "plan": [_call("pair", ["(None, 1)"]), _call("pair", ["('s', 2)", "2"])]}})
+PINNED[-1]["literal"]["text_annotated"] = ["pair(p)"]
 
 
 # a module in which the only union sits inside an Optional (imports are merged per module: one plain Union elsewhere would provide the name)
